@@ -779,6 +779,13 @@ func (fc *FaultClient) Isolate() {
 	}
 }
 
+// StreamCount returns how many streams the node has opened so far.
+func (fc *FaultClient) StreamCount() int {
+	fc.mu.Lock()
+	defer fc.mu.Unlock()
+	return fc.StreamsOpened
+}
+
 // LastStreamURL returns the advertise URL of the primary the node's most recent stream
 // was opened to ("" if it never streamed).
 func (fc *FaultClient) LastStreamURL() string {
